@@ -1376,7 +1376,9 @@ EXHAUSTIVE = {'thorough': True}
 UNPROVED = []
 TECHNIQUE = ('Lean 4 proofs (unbounded) about executable models of threshold.py, openlist.py, QuotaSelector and Tie.break_by_list '
              '+ differential correspondence of the models with votelib on constructed boundary inputs + direct oracle')
-LEVEL_TEXT = ('Every class of threshold.py and openlist.py, QuotaSelector and Tie.break_by_list are modelled line for line in Lean '
+LEVEL_TEXT = ('The filter conditions of AbsoluteThreshold / RelativeThreshold are regenerated from the source on every run '
+              '(Gen/Threshold.lean) and proved to be the boundary rule; '
+              'every class of threshold.py and openlist.py, QuotaSelector and Tie.break_by_list are modelled line for line in Lean '
               '(exact rationals).  Proved for all inputs: membership iff for relative/absolute thresholds and quota selectors '
               '(strictly over, or on it when equality is accepted) with the sorted_votes order; alternatives are the union, '
               'duplicate-free, by mean rank; both bracketers apply to each candidate the selector of its bracket; the open list '
